@@ -30,7 +30,7 @@ Anything else raises Untranslatable(<named construct>): a broken tie.
 import ast, os, hashlib
 from translate import Untranslatable, find_function
 
-ERRS = {"ValueError", "IndexError", "OverflowError", "TypeError", "AssertionError", "KeyError", "InvalidOperation"}
+ERRS = {"ValueError", "IndexError", "OverflowError", "TypeError", "AssertionError", "KeyError", "InvalidOperation", "ParserError"}
 
 LEAN_TY = {"Nat": "Nat", "Int": "Int", "Bool": "Bool", "OptNat": "Option Nat", "OptInt": "Option Int", "Dec": "PM.Dec",
            "Tok": "PM.Token", "OptTok": "Option PM.Token", "Char": "Char", "Label": "PM.Label", "Ymd": "PM.Ymd",
@@ -39,7 +39,8 @@ LEAN_TY = {"Nat": "Nat", "Int": "Int", "Bool": "Bool", "OptNat": "Option Nat", "
            "NatOptPair": "Nat × Option Nat", "OptPair": "Option (Nat × Nat)", "Unit": "Unit",
            "TokPair": "PM.Token × PM.Token", "NumRet": "Nat × PM.Ymd × PM.Res",
            "StepRet": "List PM.Token × Nat × PM.Res × PM.Ymd × List Nat", "OptFloat": "Option Unit", "IntStr": "Int", "DT": "DT", "Repl": "PPy.Repl", "OptBool": "Option Bool", "Str": "List Char",
-           "ParseRet": "Option (PM.Res × Option (List PM.Token))", "DecimalV": "PPy.DecimalV", "FoldDt": "PPy.FoldDt"}
+           "ParseRet": "Option (PM.Res × Option (List PM.Token))", "OptRes": "Option PM.Res", "OptToks": "Option (List PM.Token)",
+           "ADt": "PPy.ADt", "TzData": "PM.TzData", "TzObj": "PPy.TzObj", "ResultA": "PM.ResultA", "TzInfos": "PM.TzInfos", "DecimalV": "PPy.DecimalV", "FoldDt": "PPy.FoldDt"}
 PAIR_TYPES = {"NatPair": ("Nat", "Nat"), "NatOptPair": ("Nat", "OptNat"), "TokPair": ("Tok", "Tok")}
 # (methods of `parser` that are themselves translated: PARSER_METHODS below)
 
@@ -101,6 +102,7 @@ class Tr:
         self.types = {}
         self.static = {}
         self.narrow = {}
+        self.aux = []
         self.tmp = 0
 
     def fresh(self, base="t"):
@@ -132,6 +134,12 @@ class Tr:
         if want == "Nat" and ty == "OptNat" and pre is not None:          # arithmetic / indexing with None: TypeError
             x = self.fresh("v")
             pre.append((x, "PPy.optNat %s" % t, "Nat"))
+            return x
+        if want == "TzObj" and ty == "TzData":
+            return "(PPy.TzObj.data %s)" % t                      # a tzinfo instance or None, handed on as it is
+        if want == "Res" and ty == "OptRes" and pre is not None:
+            x = self.fresh("v")
+            pre.append((x, "PPy.optRes %s" % t, "Res"))
             return x
         if want == "Bool" and ty == "OptBool" and pre is not None:
             x = self.fresh("v")
@@ -181,6 +189,10 @@ class Tr:
             parts = [self.E(x, pre) for x in e.elts]
             if self.spec.ret == "YMD" and len(parts) == 3:
                 return "(%s)" % ", ".join(self.coerce(t, ty, "OptNat", pre) for t, ty in parts), "YMD"
+            if len(parts) == 2 and self.spec.ret == "ResultA":
+                (a, ta), (b, tb) = parts
+                if ta != "ADt" or tb != "OptToks": raise Untranslatable("return of (%s, %s)" % (ta, tb))
+                return "({ dt := %s.dt, tz := %s.tz, tokens := %s } : PM.ResultA)" % (a, a, b), "ResultA"
             if len(parts) == 2 and self.spec.ret == "ParseRet":
                 (a, ta), (b, tb) = parts
                 if ta == "None" and tb == "None": return "none", "ParseRet"
@@ -248,6 +260,11 @@ class Tr:
         return None
 
     def attr(self, e, pre):
+        if e.attr == "tm_year" and ast.unparse(e.value) == "time.localtime()" and self.spec.self_type == "InfoInit":
+            return "now_year", "Int"                                  # the current year: a parameter
+        if self.spec.self_type == "InfoInit" and isinstance(e.value, ast.Name) and e.value.id == "self" \
+                and e.attr in ["JUMP", "WEEKDAYS", "MONTHS", "HMS", "AMPM", "UTCZONE", "PERTAIN"]:
+            return "tables.%s" % e.attr, "ClassTable"               # a class attribute (word list)
         if isinstance(e.value, ast.Name) and e.value.id == "string" and e.attr == "ascii_uppercase":
             return "string.ascii_uppercase", "AsciiUpper"            # only as the right operand of `in`
         base, bty = self.E(e.value, pre)
@@ -309,6 +326,8 @@ class Tr:
                 return "(%s %s %s)" % (self.coerce(l, tl, "Int"), sym, self.coerce(r, tr, "Int")), "Int"
             if op is ast.Sub:
                 return "(%s - %s)" % (self.coerce(l, tl, "Int"), self.coerce(r, tr, "Int")), "Int"
+            if op is ast.FloorDiv and isinstance(e.right, ast.Constant) and isinstance(e.right.value, int) and e.right.value > 0:
+                return "(%s / %s)" % (self.coerce(l, tl, "Int"), self.coerce(r, tr, "Int")), "Int"
         raise Untranslatable("binop %s on %s, %s" % (op.__name__, tl, tr))
 
     def index_int(self, e, pre):
@@ -391,6 +410,7 @@ class Tr:
                 if ty == "Ymd": return "%s.vals.length" % t, "Nat"
                 if ty in ("Tok", "Strids", "NatList", "CharList", "Toks"): return "%s.length" % t, "Nat"
                 if ty == "IntStr": return "(PPy.intStrLen %s)" % t, "Nat"
+                if ty in ("Res", "OptRes"): return "(PM.Res.len %s)" % self.coerce(t, ty, "Res", pre), "Nat"
                 raise Untranslatable("len of %s" % ty)
             if n == "int" and len(e.args) == 1:
                 t, ty = self.E(e.args[0], pre)
@@ -407,6 +427,25 @@ class Tr:
                 if ty in ("Tok", "IntStr"): return "true", "StaticBool"
                 if ty in ("Dec", "Nat", "Int"): return "false", "StaticBool"
                 raise Untranslatable("hasattr(%s, '__len__')" % ty)
+            if n == "callable" and len(e.args) == 1:
+                t, ty = self.E(e.args[0], pre)
+                if ty != "TzInfos": raise Untranslatable("callable(%s)" % ty)
+                return "(PPy.tziCallable %s)" % t, "Bool"
+            if n in self.types and self.types[n] == "TzInfos" and len(e.args) == 2 and not e.keywords:
+                a, ta = self.E(e.args[0], pre); b, tb = self.E(e.args[1], pre)
+                x = self.fresh("td")
+                pre.append((x, "PPy.tziCall %s %s %s" % (n, self.coerce(a, ta, "OptTok", pre), self.coerce(b, tb, "OptInt", pre)), "TzData"))
+                return x, "TzData"
+            if n == "isinstance" and len(e.args) == 2:
+                t, ty = self.E(e.args[0], pre)
+                k2 = ast.unparse(e.args[1])
+                fnm = {"datetime.tzinfo": "isTzinfoObj", "text_type": "isText", "integer_types": "isInt"}.get(k2)
+                if ty != "TzData" or fnm is None: raise Untranslatable("isinstance(%s, %s)" % (ty, k2))
+                return "(PPy.%s %s)" % (fnm, t), "Bool"
+            if n == "sorted" and len(e.args) == 1 and not e.keywords:
+                t, ty = self.E(e.args[0], pre)
+                if ty != "NatList": raise Untranslatable("sorted(%s)" % ty)
+                return "(PPy.sortedNat %s)" % t, "NatList"
             if n == "_ymd" and not e.args and not e.keywords:
                 return "({} : PM.Ymd)", "Ymd"
             if n == "tuple" and len(e.args) == 1:
@@ -430,6 +469,50 @@ class Tr:
             if n == "range" and len(e.args) == 1 and isinstance(e.args[0], ast.Constant) and isinstance(e.args[0].value, int):
                 return "(List.range %d)" % e.args[0].value, "NatList"
             raise Untranslatable("call %s" % n)
+        if isinstance(f, ast.Attribute) and ast.unparse(f) == "tz.tzstr" and len(e.args) == 1:
+            a, ta = self.E(e.args[0], pre)
+            if ta != "TzData": raise Untranslatable("tz.tzstr(%s)" % ta)
+            x = self.fresh("z")
+            pre.append((x, "PPy.mkTzstr %s" % a, "TzObj"))          # the constructor may raise (C08's model of the TZ-string parser)
+            return x, "TzObj"
+        if isinstance(f, ast.Attribute) and ast.unparse(f) == "tz.tzoffset" and len(e.args) == 2:
+            a, ta = self.E(e.args[0], pre); b, tb = self.E(e.args[1], pre)
+            if tb != "TzData": raise Untranslatable("tz.tzoffset(_, %s)" % tb)
+            x = self.fresh("z")
+            pre.append((x, "PPy.mkTzoffset %s %s" % (self.coerce(a, ta, "OptTok", pre), b), "TzObj"))
+            return x, "TzObj"
+        if isinstance(f, ast.Attribute) and isinstance(f.value, ast.Name) and self.types.get(f.value.id) == "TzInfos" \
+                and f.attr == "get" and len(e.args) == 1:
+            a, ta = self.E(e.args[0], pre)
+            x = self.fresh("td")
+            pre.append((x, "PPy.tziGet %s %s" % (f.value.id, self.coerce(a, ta, "OptTok", pre)), "TzData"))
+            return x, "TzData"
+        if isinstance(f, ast.Attribute) and ast.unparse(f) == "self._parse" and len(e.args) == 1 and len(e.keywords) == 1 \
+                and e.keywords[0].arg is None and isinstance(e.keywords[0].value, ast.Name) and e.keywords[0].value.id == "kwargs":
+            t, ty = self.E(e.args[0], pre)
+            if ty != "Str": raise Untranslatable("_parse(%s)" % ty)
+            for kname in ("dayfirst", "yearfirst", "fuzzy", "fuzzy_with_tokens"):        # **kwargs: the keyword parameters of _parse
+                if kname not in self.types: raise Untranslatable("**kwargs: %s is not declared" % kname)
+            self.uses_fuel = True
+            x = self.fresh("pr")
+            pre.append((x, "Gen.P.parse fuel cls info %s dayfirst yearfirst fuzzy fuzzy_with_tokens" % t, "ParseRet"))
+            return x, "ParseRet"
+        if isinstance(f, ast.Attribute) and ast.unparse(f) == "kwargs.get" and len(e.args) == 2 \
+                and isinstance(e.args[0], ast.Constant) and e.args[0].value == "fuzzy_with_tokens" \
+                and isinstance(e.args[1], ast.Constant) and e.args[1].value is False:
+            return "fuzzy_with_tokens", "Bool"
+        if isinstance(f, ast.Attribute) and ast.unparse(f) == "self._build_naive" and len(e.args) == 2:
+            a, ta = self.E(e.args[0], pre); b, tb = self.E(e.args[1], pre)
+            if tb != "DT": raise Untranslatable("_build_naive(_, %s)" % tb)
+            x = self.fresh("nv")
+            pre.append((x, "Gen.P.buildNaive info %s %s" % (self.coerce(a, ta, "Res", pre), b), "DT"))
+            return "({ dt := %s, tz := PM.FinalTz.ofDefault } : PPy.ADt)" % x, "ADt"     # `default.replace(**repl)` keeps default.tzinfo
+        if isinstance(f, ast.Attribute) and ast.unparse(f) == "self._build_tzaware" and len(e.args) == 3:
+            a, ta = self.E(e.args[0], pre); b, tb = self.E(e.args[1], pre); c, tc = self.E(e.args[2], pre)
+            if ta != "ADt" or tc != "TzInfos": raise Untranslatable("_build_tzaware(%s, _, %s)" % (ta, tc))
+            x = self.fresh("aw")
+            pre.append((x, "PPy.buildTzawareStandIn tznames %s %s %s" % (c, a, self.coerce(b, tb, "Res", pre)), "ADt"))   # named stand-in (hand model)
+            return x, "ADt"
         if isinstance(f, ast.Attribute) and ast.unparse(f) == "self._result" and not e.args and not e.keywords:
             return "({} : PM.Res)", "Res"
         if isinstance(f, ast.Attribute) and ast.unparse(f) == "_timelex.split" and len(e.args) == 1:
@@ -440,7 +523,7 @@ class Tr:
             a, ta = self.E(e.args[0], pre); b, tb = self.E(e.args[1], pre)
             if (ta, tb) != ("Toks", "NatList"): raise Untranslatable("_recombine_skipped(%s, %s)" % (ta, tb))
             x = self.fresh("sk")
-            pre.append((x, "PM.recombineSkipped %s %s" % (a, b), "Toks"))     # named primitive (hand model) until it is translated
+            pre.append((x, "Gen.P.recombineSkipped info %s %s" % (a, b), "Toks"))
             return x, "Toks"
         if isinstance(f, ast.Attribute) and ast.unparse(f) == "relativedelta.relativedelta" and not e.args \
                 and len(e.keywords) == 1 and e.keywords[0].arg == "weekday":
@@ -459,6 +542,9 @@ class Tr:
                 return "(PM.isDigitTok cls %s)" % recv, "Bool"
             if rt == "Tok" and f.attr == "lower" and not e.args:
                 return "(PM.lower %s)" % recv, "Tok"
+            if rt == "ADt" and f.attr == "replace" and not e.args and len(e.keywords) == 1 and e.keywords[0].arg == "tzinfo" \
+                    and isinstance(e.keywords[0].value, ast.Constant) and e.keywords[0].value.value is None:
+                return "({ %s with tz := PM.FinalTz.none } : PPy.ADt)" % recv, "ADt"
             if rt == "DT" and f.attr == "replace" and not e.args and len(e.keywords) == 1 and e.keywords[0].arg is None:
                 d, td = self.E(e.keywords[0].value, pre)
                 if td != "Repl": raise Untranslatable("replace(**%s)" % td)
@@ -520,6 +606,10 @@ class Tr:
                 kx, tk = self.E(e.args[0], pre)
                 if tk != "Tok": raise Untranslatable("dict.get(%s)" % tk)
                 return "(PM.lookupLast %s %s)" % (recv, kx), "OptInt"
+            if rt == "Info" and f.attr == "_convert" and len(e.args) == 1:
+                a, ta = self.E(e.args[0], pre)
+                if ta != "ClassTable": raise Untranslatable("_convert(%s)" % ta)
+                return "(PM.convertGroups %s)" % a, "TokNatDict"        # `_convert`: a named primitive (Model/Parser.lean)
             if rt == "Info" and f.attr == "tzoffset" and len(e.args) == 1:
                 a, ta = self.E(e.args[0], pre)
                 a = self.coerce(a, ta, "Tok", pre) if ta != "OptTok" else self.opt_tok(a, pre)
@@ -703,8 +793,9 @@ class Tr:
             pos = isinstance(op, ast.Is)
             if tl in ("Nat", "Int", "Tok", "Dec"): return (not pos), ("none", "None")
             if tl == "None": return pos, ("none", "None")
+            if tl == "TzData": return "(%s %s PM.TzData.noneVal)" % (l, "=" if pos else "≠"), ("none", "None")
             if tl == "Label": return "(%s %s PM.Label.none)" % (l, "=" if pos else "≠"), ("none", "None")
-            if tl in ("OptNat", "OptInt", "OptTok", "OptFloat", "OptBool"): return "(%s %s none)" % (l, "=" if pos else "≠"), ("none", "None")
+            if tl in ("OptNat", "OptInt", "OptTok", "OptFloat", "OptBool", "OptRes", "OptToks"): return "(%s %s none)" % (l, "=" if pos else "≠"), ("none", "None")
             raise Untranslatable("is None on %s" % tl)
         if isinstance(op, (ast.In, ast.NotIn)):
             neg = isinstance(op, ast.NotIn)
@@ -835,6 +926,11 @@ class Tr:
                 a, ta = self.E(v.args[1], pre); b, tb = self.E(v.args[2], pre)
                 return "Gen.P.assignHms cls info %s %s %s" % (v.args[0].id, self.coerce(a, ta, "Tok", pre), self.coerce(b, tb, "Nat", pre))
             return v.args[0].id, build
+        if rt == "Toks" and v.func.attr == "append" and len(v.args) == 1:
+            def build(pre):
+                a, ta = self.E(v.args[0], pre)
+                return ".ok (%s ++ [%s])" % (recv, self.coerce(a, ta, "Tok", pre))
+            return recv, build
         if rt == "NatList" and v.func.attr == "append" and len(v.args) == 1:
             def build(pre):
                 a, ta = self.E(v.args[0], pre)
@@ -958,6 +1054,8 @@ class Tr:
             t, ty = self.E(s.value, pre)
             if ty == "Static": raise Untranslatable("return of a static value")
             if ty == "StaticBool": ty = "Bool"
+            if ty == "ADt" and self.spec.ret == "ResultA":
+                t, ty = "({ dt := %s.dt, tz := %s.tz, tokens := none } : PM.ResultA)" % (t, t), "ResultA"
             t = self.coerce(t, ty, self.spec.ret, pre)
             return self.wrap(pre, ".ok %s" % t)
         if isinstance(s, ast.While):
@@ -971,6 +1069,40 @@ class Tr:
             for k2, n in enumerate(state):
                 out += "let %s := %s\n" % (self.lname(n), x + ".2" * k2 + (".1" if k2 < len(state) - 1 else ""))
             return "Except.bind (%s fuel cls info %s) (fun %s =>\n%s%s)" % (fn_, " ".join(self.lname(a) for a in args), x, out, nxt())
+        if isinstance(s, ast.For) and isinstance(s.iter, ast.Call) and isinstance(s.iter.func, ast.Name) and s.iter.func.id == "enumerate" \
+                and len(s.iter.args) == 1 and isinstance(s.target, ast.Tuple) and len(s.target.elts) == 2 \
+                and all(isinstance(x, ast.Name) for x in s.target.elts) and not s.orelse \
+                and not self.has(s.body, (ast.Break, ast.Continue, ast.Return)):
+            # a loop over a list computed at run time: a structurally recursive auxiliary function over that list, with the index
+            pre = []
+            it, ti = self.E(s.iter.args[0], pre)
+            if ti != "NatList": raise Untranslatable("enumerate over %s" % ti)
+            iv, xv = s.target.elts[0].id, s.target.elts[1].id
+            live_after = self.live_in(rest, live_out)
+            state = [v for v in self.assigned(s.body) if v in live_after or v in self.reads(s.body)]
+            free = sorted(n for n in self.reads(s.body) if n in self.types and n not in state and n not in (iv, xv, "self", "info")
+                          and self.types[n] not in ("Parser",))
+            aux = "%s_loop" % self.spec.leanname
+            sub = Tr(self.spec, self.tree)
+            sub.types = dict(self.types); sub.static = dict(self.static); sub.tmp = 100
+            sub.types[iv] = "Nat"; sub.types[xv] = "Nat"
+            lead = "cls " if any(c[0] == "cls" for c in self.spec.ctx) else ""
+            call = lambda: "%s %sinfo %s rest_ (%s + 1) %s" % (aux, lead, " ".join(sub.lname(n) for n in free), iv,
+                                                              " ".join(sub.lname(n) for n in state))
+            body = sub.B(s.body, call, set(state))
+            for v in state:
+                if sub.types.get(v) != self.types.get(v): raise Untranslatable("loop variable %s changes type" % v)
+            sty = " × ".join(lty(self.types[v]) for v in state)
+            self.aux.append(
+                "/-- the `for … in enumerate(…)` loop of `%s`, by recursion on the list being enumerated -/\ndef %s %s(info : PM.Info) %s : List Nat → Nat → %s → Py.R (%s)\n| [], _, %s => .ok %s\n| %s :: rest_, %s, %s =>\n%s\n" % (
+                    self.spec.qualname, aux, "(cls : Char → PM.CClass) " if lead else "",
+                    " ".join("(%s : %s)" % (self.lname(n), lty(self.types[n])) for n in free),
+                    " → ".join(lty(self.types[v]) for v in state), sty, ", ".join(self.lname(v) for v in state), self.ret_text(state),
+                    xv, iv, ", ".join(self.lname(v) for v in state), body))
+            tmp = self.fresh("j")
+            return self.wrap(pre, "Except.bind (%s %sinfo %s %s 0 %s) (fun %s =>\n%s%s)" % (
+                aux, lead, " ".join(self.lname(n) for n in free), it, " ".join(self.lname(v) for v in state), tmp,
+                self.unpack(state, tmp), nxt()))
         if isinstance(s, ast.For):
             if s.orelse or not isinstance(s.target, ast.Name) or not isinstance(s.iter, (ast.Tuple, ast.List)) \
                     or not all(isinstance(x, ast.Constant) for x in s.iter.elts) or self.has(s.body, (ast.Break, ast.Continue, ast.Return)):
@@ -1005,18 +1137,25 @@ class Tr:
                 and isinstance(v.args[1], ast.Name) and v.args[1].id == h.name):
             raise Untranslatable("except Exception: handler is not six.raise_from(E(...), e)")
         err = v.args[0].func.id
+        only = None if h.type.id == "Exception" else h.type.id
         if s.finalbody or self.has(s.body, ast.Return): raise Untranslatable("try/except Exception shape")
         live = self.reads(s.orelse + rest) | set(live_out)
         vs = [x for x in self.assigned(s.body) if x in live]
         body = self.B(s.body, lambda: ".ok %s" % self.ret_text(vs), live)
         tmp = self.fresh("j") if vs else "_"
         after = self.B(s.orelse + rest, k, live_out)
-        return "(match (%s) with\n| .error _ => .error .%s\n| .ok %s =>\n%s%s)" % (
-            body, err, tmp, self.unpack(vs, tmp) if vs else "", after)
+        arm = "| .error _ => .error .%s" % err if only is None else \
+            "| .error e_ => if e_ = .%s then .error .%s else .error e_" % (only, err)
+        return "(match (%s) with\n%s\n| .ok %s =>\n%s%s)" % (
+            body, arm, tmp, self.unpack(vs, tmp) if vs else "", after)
 
     def try_(self, s, rest, k, live_out):
         """try: return <expr with one D[key]>  except KeyError: S"""
         if len(s.handlers) == 1 and isinstance(s.handlers[0].type, ast.Name) and s.handlers[0].type.id == "Exception":
+            return self.try_exception(s, rest, k, live_out)
+        if len(s.handlers) == 1 and isinstance(s.handlers[0].type, ast.Name) and s.handlers[0].type.id == "ValueError" \
+                and s.handlers[0].name and any(isinstance(n, ast.Call) and ast.unparse(n.func) == "six.raise_from"
+                                               for n in ast.walk(s.handlers[0])):
             return self.try_exception(s, rest, k, live_out)
         if len(s.handlers) == 1 and isinstance(s.handlers[0].type, ast.Tuple) and not s.orelse and not s.finalbody \
                 and all(isinstance(x, ast.Name) and x.id in ERRS for x in s.handlers[0].type.elts) \
@@ -1096,6 +1235,10 @@ class Tr:
                     out += self.bind_name(n, t, ty, pre)
                 return self.wrap(pre, out + nxt())
             t, ty = self.E(value, pre)
+            if ty == "ParseRet" and len(names) == 2:
+                out = self.bind_name(names[0], "(%s.map (·.1))" % t, "OptRes", pre)
+                out += self.bind_name(names[1], "(%s.bind (·.2))" % t, "OptToks", pre)
+                return self.wrap(pre, out + nxt())
             if ty == "YMD" and len(names) == 3:
                 out = ""
                 for i2, n in enumerate(names):
@@ -1134,6 +1277,8 @@ class Tr:
             out += "let %s := %s.2.1\nlet %s := %s.2.2\n" % (names[3], x, names[4], x)
             return self.wrap(pre, out + nxt())
         t, ty = self.E(value, pre)
+        if isinstance(target, ast.Name) and isinstance(value, ast.List) and not value.elts and self.spec.locals.get(target.id) == "Toks":
+            t, ty = "([] : List PM.Token)", "Toks"
         if isinstance(target, ast.Name) and ty == "Info":
             if t != "info" or target.id != "info": raise Untranslatable("a second parserinfo")
             return nxt()
@@ -1150,6 +1295,11 @@ class Tr:
         if isinstance(target, ast.Attribute) and isinstance(target.value, ast.Name):
             obj = target.value.id
             oty = self.types.get(obj)
+            if oty == "Info" and self.spec.self_type == "InfoInit" and target.attr in INFO_FIELDS:
+                f, fty = INFO_FIELDS[target.attr]
+                if fty == "TokSet" and ty == "TokNatDict": t, ty = "(List.map Prod.fst %s)" % t, "TokSet"      # only the keys are ever asked
+                if fty != ty: t = self.coerce(t, ty, fty, pre)
+                return self.wrap(pre, "let %s := { %s with %s := %s }\n%s" % (obj, obj, f, t, nxt()))
             tbl = {"Ymd": YMD_FIELDS, "Res": RES_FIELDS}.get(oty)
             if tbl is None or target.attr not in tbl: raise Untranslatable("assignment to %s.%s" % (oty, target.attr))
             f, fty = tbl[target.attr]
@@ -1164,6 +1314,9 @@ class Tr:
         if isinstance(target, ast.Subscript) and isinstance(target.value, ast.Name) and self.types.get(target.value.id) == "Toks":
             d = target.value.id
             ix, ti = self.E(target.slice, pre)
+            if ti == "Int" and ix == "(-1)":
+                return self.wrap(pre, "Except.bind (PPy.toksSetLast %s %s) (fun l_ =>\nlet %s := l_\n%s)" % (
+                    d, self.coerce(t, ty, "Tok", pre), self.lname(d), nxt()))
             if ti != "Nat": raise Untranslatable("token list index of type %s" % ti)
             # `l[k] = v` for an index already read (`l[k]` evaluated in `value`): IndexError otherwise
             return self.wrap(pre, "Except.bind (PPy.toksSet %s %s %s) (fun l_ =>\nlet %s := l_\n%s)" % (
@@ -1271,6 +1424,10 @@ class Tr:
         if sp.self_type in ("Ymd", "Info"):
             params.append("(self : %s)" % lty(sp.self_type))
             self.types["self"] = sp.self_type
+        elif sp.self_type == "InfoInit":
+            params.append("(tables : PPy.InfoTables) (now_year : Int)")
+            self.types["self"] = "Info"
+            self.init_head = "let self : PM.Info := PPy.infoOfClass tables\n"
         elif sp.self_type == "Parser":
             params.append("(info : PM.Info)")
             self.types["self"] = "Parser"
@@ -1285,6 +1442,15 @@ class Tr:
             if not (n == "info" and sp.self_type == "Parser"):
                 params.append("(%s : %s)" % (self.lname(n), lty(declared[n])))
         stmts = fn.body
+        if sp.part == "from-_parse-call":
+            idx = [k2 for k2, st in enumerate(fn.body) if isinstance(st, ast.Assign) and isinstance(st.value, ast.Call)
+                   and ast.unparse(st.value.func) == "self._parse"]
+            if len(idx) != 1: raise Untranslatable("%s: exactly one top-level `… = self._parse(…)` is expected" % sp.qualname)
+            stmts = fn.body[idx[0]:]
+            for n, t in sp.params:
+                if t != "Skip" and n not in self.types:
+                    self.types[n] = t
+                    params.append("(%s : %s)" % (self.lname(n), lty(t)))
         if sp.part == "while-body":
             loops = [n for n in ast.walk(fn) if isinstance(n, ast.While)]
             if len(loops) != 1 or loops[0].orelse: raise Untranslatable("%s: exactly one while loop is expected" % sp.qualname)
@@ -1332,7 +1498,8 @@ class Tr:
             live = set()
         body = self.B(stmts, k, live)
         if getattr(self, "uses_fuel", False): params.insert(0, "(fuel : Nat)")
-        return "/-- translated from `%s:%s`%s -/\ndef %s %s : Py.R (%s) :=\n%s\n" % (
+        body = getattr(self, "init_head", "") + body
+        return "".join(self.aux) + "/-- translated from `%s:%s`%s -/\ndef %s %s : Py.R (%s) :=\n%s\n" % (
             relfile, sp.qualname, " (%s)" % ", ".join("%s : %s" % p for p in sp.params) if sp.params else "",
             sp.leanname, " ".join(params), lty(sp.ret), body)
 
@@ -1375,6 +1542,8 @@ PARSER_SPECS = [
     PFn("parserinfo.pertain", "info_pertain", [("name", "Tok")], "Bool", **INFO),
     PFn("parserinfo.utczone", "info_utczone", [("name", "Tok")], "Bool", **INFO),
     PFn("parserinfo.tzoffset", "info_tzoffset", [("name", "Tok")], "OptInt", **INFO),
+    PFn("parserinfo.__init__", "info_init", [("dayfirst", "Bool"), ("yearfirst", "Bool")], "Info", self_type="InfoInit",
+        returns="self"),
     PFn("parserinfo.validate", "info_validate", [("res", "Res")], "Res", returns="res", **INFO),
     # ---- parser: the small methods
     PFn("parser._could_be_tzname", "couldBeTzname", [("hour", "OptNat"), ("tzname", "OptTok"), ("tzoffset", "OptInt"),
@@ -1392,6 +1561,8 @@ PARSER_SPECS = [
     PFn("parser._parse_hms", "parseHms", [("idx", "Nat"), ("tokens", "Toks"), ("info", "Info"), ("hms_idx", "OptNat")],
         "NatOptPair", self_type="Parser", locals_={"hms": "OptNat", "new_idx": "Nat"}),
     PFn("parser._build_naive", "buildNaive", [("res", "Res"), ("default", "DT")], "DT", self_type="Parser"),
+    PFn("parser._build_tzinfo", "buildTzinfo", [("tzinfos", "TzInfos"), ("tzname", "OptTok"), ("tzoffset", "OptInt")], "TzObj",
+        self_type="Parser", locals_={"tzinfo": "TzObj"}),
     PFn("parser._assign_tzname", "assignTzname", [("dt", "FoldDt"), ("tzname", "OptTok")], "FoldDt", self_type="Parser"),
     # ---- _ymd
     PFn("_ymd.could_be_day", "ymd_couldBeDay", [("value", "Dec")], "Bool", self_type="Ymd", inlines=YMD_PROPS),
@@ -1411,6 +1582,8 @@ PARSER_SPECS = [
     PFn("parser._parse_numeric_token", "parseNumericToken",
         [("tokens", "Toks"), ("idx", "Nat"), ("info", "Info"), ("ymd", "Ymd"), ("res", "Res"), ("fuzzy", "Bool")], "NumRet",
         self_type="Parser", ctx=[CLS], returns=["idx", "ymd", "res"], locals_={"idx": "Nat"}, inlines=YMD_PROPS),
+    PFn("parser._recombine_skipped", "recombineSkipped", [("tokens", "Toks"), ("skipped_idxs", "NatList")], "Toks",
+        self_type="Parser", locals_={"skipped_tokens": "Toks"}),
     PFn("parser._parse", "parseStep",
         [("l", "Toks"), ("i", "Nat"), ("len_l", "Nat"), ("info", "Info"), ("res", "Res"), ("ymd", "Ymd"),
          ("skipped_idxs", "NatList"), ("fuzzy", "Bool"), ("timestr", "Skip")], "StepRet", self_type="Parser", ctx=[CLS],
@@ -1424,6 +1597,11 @@ PARSER_SPECS = [
                                    ("fuzzy_with_tokens", "Bool")], "ParseRet", self_type="Parser", ctx=[CLS],
         locals_={"dayfirst": "Bool", "yearfirst": "Bool", "skipped_idxs": "NatList"},
         loop=("Gen.P.parseLoop", ["l", "i", "len_l", "res", "ymd", "skipped_idxs", "fuzzy"], ["l", "i", "res", "ymd", "skipped_idxs"])),
+    # `parser.parse` from the `_parse` call to the return (`default` given; **kwargs = the keyword parameters of `_parse`)
+    PFn("parser.parse", "parseTail", [("timestr", "Str"), ("default", "DT"), ("ignoretz", "Bool"), ("tzinfos", "TzInfos"),
+                                      ("dayfirst", "OptBool"), ("yearfirst", "OptBool"), ("fuzzy", "Bool"),
+                                      ("fuzzy_with_tokens", "Bool")], "ResultA", self_type="Parser",
+        ctx=[CLS, ("tznames", "List PM.Token")], part="from-_parse-call"),
 ]
 
 
